@@ -674,7 +674,12 @@ func genBroker(p brokerProfile, seed int64, n int, tier string, w *bufio.Writer)
 					if r.Intn(2) == 0 {
 						data = append(data, 0xe0, 0x00)
 					}
-					g.emit("rawclose %d %s", c.id, hexOf(data))
+					if r.Intn(2) == 0 {
+						// … and are handed to the broker together with the end of the stream, in one read
+						g.emit("rawclose %d %s eof", c.id, hexOf(data))
+					} else {
+						g.emit("rawclose %d %s", c.id, hexOf(data))
+					}
 					g.remove(c)
 					break
 				}
